@@ -143,7 +143,8 @@ def check_case(case, stats=None):
 
 
 def strategy():
-    return qgen.st_case_select(join_p=4, order=True, distinct=True, top=True, where_p=3, dup_heavy=True, except_p=0, max_rows=7, max_width=3)
+    main = qgen.st_case_select(join_p=4, order=True, distinct=True, top=True, where_p=3, dup_heavy=True, except_p=0, max_rows=7, max_width=3)
+    return st.one_of(main, main, main, main, qgen.st_case_typed())
 
 
 # ---------------------------------------------------------------------------------------------
